@@ -486,7 +486,65 @@ theorem gather_correct_canonical (n : Net) (st : SliceState) (hinv : Inv n st) (
     unfold innerIxs
     exact List.mem_filter.2 ⟨hmem s hs, by simpa using hno⟩
 
+/-- **closed form**: no hypothesis about the slice results is left — the per-slice arrays are
+    *defined* as the einsums of the sliced networks (`sliceResult`), and gathering them gives
+    the einsum of the unsliced network. -/
+theorem gather_einsum_slices (n : Net) (st : SliceState) (hinv : Inv n st) (hout : n.output.Nodup)
+    (hpos : ∀ ix, 0 < n.size ix) (inner : List Ix) (hin : inner.Nodup)
+    (hdisj : ∀ ix ∈ inner, ix ∉ n.output)
+    (hall : ∀ c, ∀ ix ∈ n.term c, ix ∈ n.output ∨ ix ∈ inner)
+    (hcover : ∀ s ∈ st.slicedInds, s.ind ∉ n.output → s.ind ∈ inner)
+    (A : List Arr) (hA : A.length = n.inputs.length) :
+    ∃ R, gatherSlices n.output st.slicedInds
+        ((List.range (prodSizes st.slicedInds)).map (sliceResult n st inner A)) = some R ∧
+      ∀ σ, (∀ s ∈ outs st.slicedInds, InRange st.slicedInds σ s.ind) →
+        denote n.output R σ = einsumRef n st.slicedInds inner A σ :=
+  gather_correct n st hinv hout hpos inner hin hdisj hcover A hA (sliceResult n st inner A)
+    (fun i σ => denote_sliceResult n st inner A i hall σ)
+
+/-- **chunks are correct**: chunk `o` yielded by `gen_output_chunks` — the sum of the slice
+    einsums `o*stepsize … o*stepsize+stepsize-1` — read with axes `output` minus sliced indices,
+    is the reference einsum with the sliced output indices held at the chunk's key
+    `slice_key` of the output indices (and summed over all sliced inner indices). -/
+theorem chunk_correct (n : Net) (st : SliceState) (hinv : Inv n st) (hpos : ∀ ix, 0 < n.size ix)
+    (inner : List Ix) (hin : inner.Nodup) (hdisj : ∀ ix ∈ inner, ix ∉ n.output)
+    (hall : ∀ c, ∀ ix ∈ n.term c, ix ∈ n.output ∨ ix ∈ inner)
+    (hcover : ∀ s ∈ st.slicedInds, s.ind ∉ n.output → s.ind ∈ inner)
+    (A : List Arr) (hA : A.length = n.inputs.length) (o : Nat) (ho : o < nchunks st.slicedInds) :
+    ∃ a, (genOutputChunks n.output st.slicedInds (prodSizes st.slicedInds)
+        (sliceResult n st inner A))[o]? = some (a, sliceKey (outs st.slicedInds) o) ∧
+      ∀ σ, denote (slicedNet n st.slicedInds).output a σ =
+        einsumRef n st.slicedInds inner A (ov σ (sliceKey (outs st.slicedInds) o)) := by
+  have hstep : 0 < stepsize st.slicedInds :=
+    prodSizes_pos n hpos _ (fun s hs => hinv.flags s (List.mem_filter.1 hs).1)
+  obtain ⟨a, ha, hget⟩ := genOutputChunks_spec n st.slicedInds hinv.sorted hinv.flags hstep
+    (sliceResult n st inner A) o ho
+  refine ⟨a, ha, fun σ => ?_⟩
+  rw [← chunk_section n st hinv inner hin hdisj hcover A hA σ o ho]
+  unfold denote
+  rw [hget]
+  congr 1
+  apply List.map_congr_left
+  intro j _
+  exact denote_sliceResult n st inner A _ hall σ
+
 /-! ## non-vacuity -/
+
+/-- matrix product `ab,bc->ac` with the inner index `b = 1` and the output index `a = 0` sliced:
+    4 slices; gathering the slice einsums gives the product `[[7,10],[15,22]]` of
+    `[[1,2],[3,4]]` with itself -/
+def mmNet : Net := { inputs := [[0, 1], [1, 2]], output := [0, 2], sizes := [(0, 2), (1, 2), (2, 2)] }
+def mmState : SliceState := runOps mmNet [.remove 1 none, .remove 0 none]
+def mmArr : Arr := { shape := [2, 2], get := fun idx => 1 + 2 * (idx.getD 0 0 : Nat) + (idx.getD 1 0 : Nat) }
+
+example : mmState = ⟨[⟨false, 0, 2, none⟩, ⟨true, 1, 2, none⟩], 4, [0, 1]⟩ := by decide
+example : ((gatherSlices mmNet.output mmState.slicedInds
+      ((List.range 4).map (sliceResult mmNet mmState [1] [mmArr, mmArr]))).map
+    fun R => [R.get [0, 0], R.get [0, 1], R.get [1, 0], R.get [1, 1]]) = some [7, 10, 15, 22] := by
+  decide
+example : einsumRef mmNet mmState.slicedInds [1] [mmArr, mmArr] (fun ix => if ix = 0 then 1 else 0) = 15 := by
+  decide
+
 
 /-- three sliced indices as `remove_ind` leaves them: output `1` sliced (size 2), output `3`
     projected onto value 2, inner `0` sliced (size 3) -/
